@@ -171,6 +171,18 @@ class CliAdapter:
                 for f in refcodec.ref_encode(3, a['ns'], a['id'],
                                              [val(x) for x in a['args']]):
                     self._deliver(f)
+            elif act == 'RxAckDup':
+                f = refcodec.ref_encode(3, a['ns'], a['id'],
+                                        [val(x) for x in a['args']])[0]
+                if self.is_async:
+                    # engine.io hands every message to its own task
+                    async def both():
+                        await asyncio.gather(c.eio.deliver(f),
+                                             c.eio.deliver(f))
+                    self._run(both())
+                else:
+                    self._deliver(f)
+                    self._deliver(f)
             elif act == 'RxFrame':
                 self._deliver(self._bin_frame(a))
             elif act == 'Emit':
@@ -220,9 +232,13 @@ class CliAdapter:
 
     def _mk_cb(self, tag):
         me = self
-        if self.is_async and self.cfg.get('coro'):
+        if self.is_async:
+            # a coroutine callback that really suspends: whatever else is
+            # being processed concurrently (a duplicate ACK) runs meanwhile
             async def cb(*args):
+                await asyncio.sleep(0)
                 me.cbs.append({'tag': tag, 'args': toks(args)})
+                await asyncio.sleep(0)
         else:
             def cb(*args):
                 me.cbs.append({'tag': tag, 'args': toks(args)})
